@@ -21,7 +21,7 @@ Gen == [accts |-> Accts,
         bcn |-> [feeReg |-> 4, feeRec |-> 1, feePur |-> 1, denom |-> "nund", def |-> 2, max |-> 3, startId |-> 1],
         str |-> [feeNum |-> 1, feeDen |-> 100]]
 
-Init == st = StateOf(Gen) /\ phase = "idle" /\ hist = <<[a |-> "InitChain", g |-> Gen]>> /\ nTx = 0 /\ nFail = 0
+Init == st = StateOf(Gen) /\ phase = "idle" /\ hist = <<[a |-> "InitChain", g |-> Gen]>> /\ nTx = 0 /\ nFail = 0 /\ GoalRegsInit
 
 \* a registry transaction offers exactly the fee of its top-level operations
 FeeTx(msgs) == LET f == SumFees(st.wrk.p, TopOps(msgs, "wrk")) + SumFees(st.bcn.p, TopOps(msgs, "bcn"))
@@ -33,7 +33,9 @@ BBuy(o, id, n) == [t |-> "BBuy", owner |-> o, id |-> id, n |-> n]
 Exec1(m)       == [t |-> "Exec", grantee |-> m.owner, msgs |-> <<m>>]
 
 LastOf(k, id) == IF ChExists(st, k, id) THEN ChOf(st, k, id).last ELSE 0
-Heights(id) == {LastOf("wrk", id) + 1, LastOf("wrk", id) + 2, LastOf("wrk", id), Big}
+\* heights are uint64 on the wire: nothing above Big (the code of 2^64 - 1) can be submitted
+CapH(h) == IF h > Big THEN Big ELSE h
+Heights(id) == {CapH(LastOf("wrk", id) + 1), CapH(LastOf("wrk", id) + 2), LastOf("wrk", id), Big}
 
 TxAlphabet ==
      { FeeTx(<<[t |-> "WReg", owner |-> a, moniker |-> m, name |-> "n", genesis |-> "g", type |-> "t"]>>) : a \in {"A1", "A2"}, m \in {"m", ""} }
@@ -44,19 +46,25 @@ TxAlphabet ==
   \cup { FeeTx(<<BBuy(a, id, n)>>) : a \in {"A1", "A2"}, id \in 1..MaxReg, n \in {1, 2} }
   \cup { Tx(<<Exec1(WBuy(a, id, n))>>) : a \in {"A1", "A2"}, id \in 1..MaxReg, n \in {1, Big} }
   \cup { Tx(<<Exec1(BBuy(a, id, n))>>) : a \in {"A1"}, id \in 1..MaxReg, n \in {2, Big} }
-  \cup { FeeTx(<<WRec("A1", 1, LastOf("wrk", 1) + 1), WRec("A1", 1, LastOf("wrk", 1) + 2)>>) }
+  \cup { FeeTx(<<WRec("A1", 1, CapH(LastOf("wrk", 1) + 1)), WRec("A1", 1, CapH(LastOf("wrk", 1) + 2))>>) }
   \cup { FeeTx(<<BRec("A1", 1), BRec("A1", 1), BRec("A2", 1)>>) }
+  \* a registration and a first record that are rolled back because the last message fails (the id stays free)
+  \cup { FeeTx(<<[t |-> "WReg", owner |-> a, moniker |-> "m", name |-> "n", genesis |-> "g", type |-> "t"],
+                  WRec(a, st.wrk.next, 1), WRec(a, st.wrk.next, 1)>>) : a \in {"A2", "A3"} }
+  \cup { FeeTx(<<[t |-> "BReg", owner |-> "A3", moniker |-> "m", name |-> "n"], BRec("A3", st.bcn.next), BBuy("A3", st.bcn.next, 1), BRec("A2", st.bcn.next)>>) }
   \cup { GovTxFor(st, "wrk", Presets[i]) : i \in DOMAIN Presets }
   \cup { GovTxFor(st, "bcn", Presets[i]) : i \in DOMAIN Presets }
 
 TotalRecs == SeqSum([i \in DOMAIN st.aux.ever.wrk |-> Len(st.aux.ever.wrk[i])]) + SeqSum([i \in DOMAIN st.aux.ever.bcn |-> Len(st.aux.ever.bcn[i])])
 
+\* the rolled-back creation scripts (three messages) do not use up the ration of failing transactions
+Scripted(ev) == Len(ev.msgs) >= 3
 Do(ev, ph) ==
   LET r == Step(st, ev) IN
   /\ st' = r.st /\ hist' = Append(hist, ev) /\ phase' = ph
   /\ IF ev.a = "DeliverTx"
-     THEN /\ nTx' = nTx + 1 /\ nFail' = IF r.ok THEN nFail ELSE nFail + 1
-          /\ (r.ok \/ nFail < MaxFail)
+     THEN /\ nTx' = nTx + 1 /\ nFail' = IF r.ok \/ Scripted(ev) THEN nFail ELSE nFail + 1
+          /\ (r.ok \/ Scripted(ev) \/ nFail < MaxFail)
      ELSE UNCHANGED <<nTx, nFail>>
 
 Next ==
@@ -96,5 +104,7 @@ StepProps == [][ hist' # hist =>
                  LET ev == hist'[Len(hist')] IN
                  C07Step(st, st', ev) /\ C08Step(st, st', ev) /\ C09Step(st, st', ev) /\ C02Step(st, st', ev) ]_vars
 W_Pruned == ~\E i \in DOMAIN st.wrk.ch : Len(st.aux.ever.wrk[i]) > Len(st.wrk.ch[i].recs)
+\* coverage goals: print the behaviours that exercise the rare situations of Goals.tla (every explored transition)
+GoalEmit == [][ GoalStep(st, hist, st', hist') ]_vars
 Emit == phase = "done" => PrintT(<<"TRACE", ToJson(hist)>>)
 =============================================================================
